@@ -10,6 +10,7 @@ import sys
 
 import numpy as np
 import scipy.sparse
+import scipy.sparse.linalg
 
 
 def errclass(e):
@@ -277,6 +278,44 @@ def main():
             r['msg'] = str(e)[:200]
         res_cop.append(r)
     out['cop'] = res_cop
+
+    # ---- free functions on full arrays: modek_tprod, matricize, outer, array_outer ------------
+    res_modek = []
+    for case in payload.get('modek', []):
+        r = {}
+        try:
+            f = case['f']
+            if f == 'modek':
+                X = np.array(case['X']['d'], dtype=float).reshape(case['X']['sh'])
+                Bd = mkmat(case['B'])
+                kind = case['kind']
+                if kind == 'dense':
+                    B = Bd
+                elif kind == 'csr':
+                    B = scipy.sparse.csr_matrix(Bd)
+                elif kind == 'csc':
+                    B = scipy.sparse.csc_matrix(Bd)
+                elif kind == 'linop':
+                    B = scipy.sparse.linalg.aslinearoperator(Bd)
+                else:
+                    raise ValueError(kind)
+                y = T.modek_tprod(B, int(case['k']), X)
+            elif f == 'matricize':
+                X = np.array(case['X']['d'], dtype=float).reshape(case['X']['sh'])
+                y = T.matricize(X, int(case['k']))
+            elif f == 'outer':
+                y = T.outer(*[np.array(v, dtype=float) for v in case['xs']])
+            elif f == 'array_outer':
+                y = T.array_outer(*[np.array(a['d'], dtype=float).reshape(a['sh']) for a in case['xs']])
+            else:
+                raise ValueError(f)
+            r['status'] = 'Ok'
+            r['value'] = dfull(y)
+        except Exception as e:  # noqa
+            r['status'] = errclass(e)
+            r['msg'] = str(e)[:200]
+        res_modek.append(r)
+    out['modek'] = res_modek
 
     # ---- rank_1_update / aca3d_update (Cython) -----------------------------------
     res_upd = []
